@@ -76,10 +76,12 @@ Definition step (s : coll) (o : op) : coll * out :=
                    end
   | Contract p q => if Nat.eqb (length p) (length q)
                     then match find p (gens s) with
-                         | Some k => ({| gens := set_nth k (smul p q) (gens s); cache := if fixed then None else cache s |}, Done)
+                         | Some k => if fixed
+                                     then let (l, r') := processing (gens s) (smul p q) in ({| gens := set_nth k r' l; cache := None |}, Done)
+                                     else ({| gens := set_nth k (smul p q) (gens s); cache := cache s |}, Done)
                          | None => (s, Done)
                          end
-                    else (s, ValueErr)
+                    else (s, ValueErr)   (* contract = replace by the product: the repaired replace pads / expands as append does *)
   | Expand n => match expand_to n (gens s) with
                 | Some l => ({| gens := l; cache := None |}, Done)
                 | None => ({| gens := gens s; cache := None |}, ValueErr)
